@@ -477,8 +477,8 @@ impl World {
             return Err(Fail::new("send_refused", format!("send of {len} bytes allowed by can_send_message disconnected the sender: {:?}", s.disconnect_reason())));
         }
         let avail_after = s.channel_available_memory(ch);
-        if self.or.memory && avail_before - avail_after != len {
-            return Err(Fail::new("send_accounting", format!("accepted message of {len} bytes changed available memory by {}", avail_before - avail_after)));
+        if self.or.memory && avail_before.wrapping_sub(avail_after) != len {
+            return Err(Fail::new("send_accounting", format!("accepted message of {len} bytes changed available memory from {avail_before} to {avail_after}")));
         }
         self.register(d, ch, content, kind);
         Ok(true)
@@ -1337,6 +1337,9 @@ impl World {
                 }
                 let _ = base;
                 // hook-free cross-check through the public API
+                if avail > max {
+                    return Err(Fail::new("send_accounting", format!("channel {id}: available memory {avail} exceeds the configured maximum {max}")));
+                }
                 if max - avail < not_handed_bytes {
                     return Err(Fail::new(
                         "released_early_bytes",
